@@ -5,7 +5,8 @@ line-protocol driver for C05 (format: see harness/mpi_c05.cc)
 
   c05 <P> <flags> <ign> <S> <T> <pay> <pol> <comm> <cont> <rounds> : s,r,g,l,attr,pub;...
 
-The driver builds the `System`, runs `interfaceOf`, `Comm.build` (on the communicator object of the previous build
+The driver builds the `System`, runs `interfaceOfG`, `Comm.buildG` (= `interfaceOf`, `Comm.build` with `strip`'s condition and
+the loop body of `build` as REGENERATED from the source; `strip_regenerated`, `layout_regenerated`) (on the communicator object of the previous build
 when `<rounds>` contains `r…`/`n…` items) and one stateful `worldStep` per round — the buffers persist from one
 communication to the next and start as junk after every build (arrival and completion order = rank order; the
 theorems say the order is irrelevant) — and applies the calls with a scatter policy that additionally tracks
@@ -228,7 +229,7 @@ def run (cfg : Cfg) (sets : Array (List Entry × List Entry)) : String :=
     if cfg.pay == 2 then fun l => (bs.getD p []).getD l 1 else fun _ => 1
   let oneC (r : Nat) : Bool := cfg.c1 && !(cfg.two.getD r false)
   -- the attribute sets are evaluated through the `contains` functions regenerated from enumset.hh
-  let ifsOf (ph : Ph) : List IfMap := ranks.map fun p => interfaceOf cfg.ign (maskSet ph.sa ph.S) (maskSet ph.ta ph.T) sys p
+  let ifsOf (ph : Ph) : List IfMap := ranks.map fun p => interfaceOfG cfg.ign (maskSet ph.sa ph.S) (maskSet ph.ta ph.T) sys p
   -- is the derived-datatype variant free of overlapping receive buffers, in every phase?
   let feasible := cfg.phases.all fun ph =>
     let ifs := ifsOf ph
@@ -244,7 +245,8 @@ def run (cfg : Cfg) (sets : Array (List Entry × List Entry)) : String :=
   let ph0 : Ph := cfg.phases.headD { S := cfg.S, sa := false, T := cfg.T, ta := false, rd := [] }
   let init : List RankSt := ranks.map fun r =>
     { cont := { c0 := mkData r 0 (bsS.getD r []), c1 := mkData r 1 (bsT.getD r []), one := oneC r },
-      out := ["S " ++ showList (selection (maskSet false ph0.S) (sys.rank r).src)] }
+      out := ["S " ++ showList (selection (maskSet false ph0.S) (sys.rank r).src) ++ " " ++
+               showList (selection (maskSet false ph0.S) (sys.rank r).tgtSet)] }
   -- the communicator objects before their first build
   let comm0 : List Comm := ranks.map fun p => buildComm sz (csOf bsS p) (csOf bsT p) []
   let fin : List RankSt :=
@@ -259,7 +261,7 @@ def run (cfg : Cfg) (sets : Array (List Entry × List Entry)) : String :=
       let raw (p : Nat) : IfMap := rawInterfaceOf cfg.ign (maskSet ph.sa ph.S) (maskSet ph.ta ph.T) sys p
       -- `build` on the communicator objects as the previous phase left them; fresh buffers with arbitrary content
       let comms' : List Comm := ranks.map fun p =>
-        (comms.getD p (buildComm sz (csOf bsS p) (csOf bsT p) [])).build sz (csOf bsS p) (csOf bsT p) (ifs.getD p [])
+        (comms.getD p (buildComm sz (csOf bsS p) (csOf bsT p) [])).buildG (cfg.pay == 2 || !cfg.c1) sz (csOf bsS p) (csOf bsT p) (ifs.getD p [])
       let comm (p : Nat) : Comm := comms'.getD p (buildComm sz (fun _ => 1) (fun _ => 1) [])
       let sts1 : List RankSt := sts.zipIdx.map fun (st, r) =>
         { st with
